@@ -344,12 +344,12 @@ def _recipe(c, op):
         with lock:
             with lock:
                 pass
-        return fp(c.get('r-rlock')[1])
+        return fp(c.get('r-rlock', retry=True)[1])
     if name == 'r_sem':
         sem = dc.BoundedSemaphore(c, 'r-sem', value=2)
         with sem:
-            inside = c.get('r-sem')
-        return fp([inside, c.get('r-sem')])
+            inside = c.get('r-sem', retry=True)
+        return fp([inside, c.get('r-sem', retry=True)])
     if name == 'r_avg_add':
         avg = dc.Averager(c, 'r-avg')
         avg.add(vals.dec(op['v']))
